@@ -52,6 +52,50 @@ def batch(rep, src, n):
     return [i.get_fitness(prob).fitness_components[0] for i in inds], [i.get_fitness(prob).fitness_components[0] for i in twin]
 
 
+def make_local_grammar():
+    """A grammar factory: the classes are made inside a function and derive from ABC - the shape of the library's own
+    geml grammars (make_var, make_grammar) and of grammars declared inside a test function."""
+    from abc import ABC
+
+    class Expr(ABC):
+        pass
+
+    @dataclass
+    class Lit(Expr):
+        v: int
+
+    @dataclass
+    class Add(Expr):
+        l: Expr
+        r: Expr
+
+    def ev(e):
+        if isinstance(e, Lit):
+            return float(e.v % 7)
+        if isinstance(e, Add):
+            return ev(e.l) + ev(e.r)
+        return -1000.0
+
+    return extract_grammar([Lit, Add], Expr), ev
+
+
+def local_batch(seed):
+    g, ev = make_local_grammar()
+    src = NativeRandomSource(seed)
+    rep = TreeBasedRepresentation(g, MaxDepthDecider(src, g, 4))
+    inds = [Individual(rep.create_genotype(src), rep) for _ in range(3 + seed % 3)]
+    twin = copy.deepcopy(inds)
+    prob = SingleObjectiveProblem(ev, minimize=False)
+    SequentialEvaluator().evaluate(prob, twin)
+    seq = [i.get_fitness(prob).fitness_components[0] for i in twin]
+    try:
+        ParallelEvaluator().evaluate(prob, inds)
+        par = [i.get_fitness(prob).fitness_components[0] for i in inds]
+    except BaseException as e:  # noqa
+        par = f"raised {type(e).__name__}: {str(e)[:160]}"
+    return par, seq
+
+
 def main():
     global TARGET
     seed = int(sys.argv[1]) if len(sys.argv) > 1 else 0
@@ -62,7 +106,7 @@ def main():
     first = batch(rep, src, n)
     TARGET = 100  # the next experiment of the same script
     second = batch(rep, src, n)  # same batch size: a pool kept from the first batch would serve it
-    print("GEVJSON " + json.dumps({"first": first, "second": second}))
+    print("GEVJSON " + json.dumps({"first": first, "second": second, "factory": local_batch(seed)}))
 
 
 if __name__ == "__main__":
